@@ -268,6 +268,22 @@ func (f *fctx) callFunction(ins *ssa.Call, callee *ssa.Function, args []Term, po
 		f.setResult(ins, []Term{Ite(ok, v, errv), Not(ok)})
 		f.sc.Trusted["strconv.ParseInt/Atoi: succeed exactly on one-field numeric atoms in int64 range"] = true
 		return
+	case "strconv.ParseUint":
+		if args[1].S != "10" || args[2].S != "64" {
+			f.fail("ParseUint with base/bits %s/%s", args[1].S, args[2].S)
+		}
+		// canonical decimal texts of 0..2^64-1 succeed, canonical negative numbers and junk fail; for a
+		// non-canonical spelling (a.alt: "+5", "007", "-0") success depends on the sign character, which the
+		// string model does not keep: left undetermined
+		altok := f.declare(ins.Name()+"altok", SBool)
+		a0 := fmt.Sprintf("(f0 %s)", args[0].S)
+		ok := f.define(ins.Name()+"ok", T(SBool, "(and (= (nf %s) 1) (or (and ((_ is a.num) %s) (<= 0 (a.val %s)) (<= (a.val %s) 18446744073709551615)) (and ((_ is a.alt) %s) (<= 0 (a.altval %s)) (<= (a.altval %s) 18446744073709551615) %s)))", args[0].S, a0, a0, a0, a0, a0, a0, altok.S))
+		v := f.define(ins.Name()+"v", Ite(ok, T(SInt, "(a.value %s)", a0), IntLit(0)))
+		errv := f.declare(ins.Name()+"ev", SInt)
+		f.assume(T(SBool, "(and (<= 0 %s) (<= %s 18446744073709551615))", errv.S, errv.S))
+		f.setResult(ins, []Term{Ite(ok, v, errv), Not(ok)})
+		f.sc.Trusted["strconv.ParseUint: succeeds on canonical decimal texts of 0..2^64-1, fails on negative numbers and non-numbers"] = true
+		return
 	case "strconv.Atoi":
 		ok := f.define(ins.Name()+"ok", T(SBool, "(str.isnum %s)", args[0].S))
 		v := f.define(ins.Name()+"v", Ite(ok, T(SInt, "(str.val %s)", args[0].S), IntLit(0)))
